@@ -12,6 +12,7 @@
                                otherwise move the 4 bytes into the header and deliver.
 -/
 import NngModel.Model.Pair0
+import NngModel.Generated.C08
 namespace Nng.Pair1
 open Nng Nng.Proto Nng.Pair0
 
